@@ -8,6 +8,7 @@ IDS="$*"; [ -z "$IDS" ] && IDS=$(ls seeded)
 for id in $IDS; do
   c=$(python3 -c "import json;print(json.load(open('seeded/$id/meta.json'))['detected_by']['check'])" 2>/dev/null)
   [ -z "$c" ] && { echo "$id - no meta"; continue; }
+  [ "$c" = "none" ] && { echo "$id - kept although no check reports it (see its meta.json)"; continue; }
   W=$(mktemp -d /var/tmp/regress.XXXXXX)
   git -C /repo worktree add -q --detach "$W/wt" HEAD || continue
   if git -C "$W/wt" apply "$V/seeded/$id/patch.diff" 2>/dev/null; then
